@@ -403,6 +403,11 @@ P["C13"] = ("""C13 — equality, ordering, hashing and Debug depend only on the 
    of [spec_eq] / [spec_cmp] on [abs a], [abs b] (any capacities, any layouts:
    the three-way segment alignment never goes out of bounds), hashing feeds the
    length then the elements of [abs a], Debug formats the elements of [abs a].
+   The element type has one NaN-like value [nan_val]: it equals nothing (itself
+   included) and is unordered against everything under partial_cmp, while
+   Ord::cmp stays the total order on values; so a buffer containing it is not
+   equal to itself (C13_nan_not_equal_to_itself: an "identical object =>
+   equal" shortcut is excluded) and partial_cmp is [lex_partial].
    Debug of an Iter / IterMut / Drain / IntoIter, after any script on it,
    formats exactly the elements it would still yield, front to back, and
    consumes nothing (the Drain / IntoIter then destroys them as usual).""", "", ops("C13", [
@@ -418,15 +423,54 @@ P["C13"] = (P["C13"][0], P["C13"][1], P["C13"][2] + [
     ("C13_eq_iff_equal_sequences", """forall a b w r a' w',
   WF a -> WF b -> fault w = None ->
   exec (OEq b) a w = (Ok (OutBool r), a', w') ->
-  (r = true <-> vals (abs a) = vals (abs b)) /\\ abs a' = abs a""", "exec_eq_iff"),
+  (r = true <-> vals (abs a) = vals (abs b) /\\ ~ In nan_val (vals (abs a))) /\\ abs a' = abs a""", "exec_eq_iff"),
+    ("C13_eq_iff_equal_sequences_total", """forall a b w r a' w',
+  WF a -> WF b -> fault w = None -> ~ In nan_val (vals (abs a)) ->
+  exec (OEq b) a w = (Ok (OutBool r), a', w') ->
+  (r = true <-> vals (abs a) = vals (abs b)) /\\ abs a' = abs a""", "exec_eq_iff_total"),
     ("C13_eq_slice_iff", """forall form xs a w r a' w',
   WF a -> zlen xs < W -> fault w = None ->
   exec (OEqSlice form xs) a w = (Ok (OutBool r), a', w') ->
-  (r = true <-> vals (abs a) = vals xs) /\\ abs a' = abs a""", "exec_eq_slice_iff"),
-    ("C13_ordering_lexicographic", """forall a b w r a' w',
+  (r = true <-> vals (abs a) = vals xs /\\ ~ In nan_val (vals (abs a))) /\\ abs a' = abs a""", "exec_eq_slice_iff"),
+    ("C13_eq_slice_iff_total", """forall form xs a w r a' w',
+  WF a -> zlen xs < W -> fault w = None -> ~ In nan_val (vals (abs a)) ->
+  exec (OEqSlice form xs) a w = (Ok (OutBool r), a', w') ->
+  (r = true <-> vals (abs a) = vals xs) /\\ abs a' = abs a""", "exec_eq_slice_iff_total"),
+    ("C13_nan_not_equal_to_itself", """forall a w,
+  WF a -> fault w = None -> In nan_val (vals (abs a)) ->
+  exists w', exec (OEq a) a w = (Ok (OutBool false), a, w')""", "eq_self_nan"),
+    ("C13_partial_ordering", """forall a b w r a' w',
   WF a -> WF b -> fault w = None ->
   exec (OPartialCmp b) a w = (Ok (OutOrd r), a', w') ->
+  r = lex_partial (vals (abs a)) (vals (abs b)) /\\ abs a' = abs a""", "exec_cmp_partial"),
+    ("C13_partial_ordering_undecided", """forall a b w r a' w',
+  WF a -> WF b -> fault w = None ->
+  exec (OPartialCmp b) a w = (Ok (OutOrd r), a', w') ->
+  (r = None <->
+   exists p x xs' y ys', vals (abs a) = p ++ x :: xs' /\\ vals (abs b) = p ++ y :: ys' /\\
+     ~ In nan_val p /\\ (x = nan_val \\/ y = nan_val))""", "exec_cmp_none"),
+    ("C13_ordering_lexicographic", """forall a b w r a' w',
+  WF a -> WF b -> fault w = None ->
+  ~ In nan_val (vals (abs a)) -> ~ In nan_val (vals (abs b)) ->
+  exec (OPartialCmp b) a w = (Ok (OutOrd r), a', w') ->
   r = Some (lex_compare (vals (abs a)) (vals (abs b))) /\\ abs a' = abs a""", "exec_cmp_lex"),
+    ("C13_total_ordering_lexicographic", """forall a b w r a' w',
+  WF a -> WF b -> cap b = cap a -> fault w = None ->
+  exec (OCmp b) a w = (Ok (OutOrd r), a', w') ->
+  r = Some (lex_compare (vals (abs a)) (vals (abs b))) /\\ abs a' = abs a""", "exec_ord_cmp_lex"),
+    ("C13_nan_value", "nan_val = 13", "eq_refl"),
+    ("C13_lex_partial_def", """forall xs ys, lex_partial xs ys =
+  match xs, ys with
+  | [], [] => Some Eq
+  | [], _ :: _ => Some Lt
+  | _ :: _, [] => Some Gt
+  | x :: xs', y :: ys' =>
+    if (x =? nan_val) || (y =? nan_val) then None else
+    match x ?= y with
+    | Eq => lex_partial xs' ys'
+    | c => Some c
+    end
+  end""", "fun xs ys => match xs, ys with [], [] | [], _ :: _ | _ :: _, [] | _ :: _, _ :: _ => eq_refl end"),
     ("C13_equal_contents_hash_equally", """forall a b w va a' wa vb b' wb,
   WF a -> WF b -> fault w = None -> abs a = abs b ->
   exec OHash a w = (Ok va, a', wa) -> exec OHash b w = (Ok vb, b', wb) ->
